@@ -64,7 +64,9 @@ def show_val(v):
     if isinstance(v, tuple):
         return "(" + ",".join(show_val(x) for x in v) + ")"
     if isinstance(v, dict):
-        return "{" + ",".join(show_val(k) + ":" + show_val(x) for k, x in v.items()) + "}"
+        # dictionaries are compared with ==: the order of the keys is not an observation
+        items = sorted(((show_val(k), show_val(x)) for k, x in v.items()), key=lambda kv: kv[0].encode("utf-8"))
+        return "{" + ",".join(k + ":" + x for k, x in items) + "}"
     return "<obj>"
 
 
